@@ -32,7 +32,9 @@ package inode
 
 // I1 (C04): every block pointer kept in an inode is null or in the data region.
 //@ predicate blksValid(ip *Inode) = len(ip.blks) == 10 && (forall k uint64 :: k < 10 ==> ip.blks[k] == 0 || validBlk(ip.blks[k]))
-//@ specfunc inodeInv(ip *Inode) = ip != nil && ip.Inum < 32768 && blksValid(ip)
+// I7/Q3: sizes stay within what the block map can address (262664 blocks).
+//@ specfunc shapeOK(ip *Inode) = ip.Size <= 1073774592 && ip.ShrinkSize <= 262664
+//@ specfunc inodeInv(ip *Inode) = ip != nil && ip.Inum < 32768 && blksValid(ip) && shapeOK(ip)
 //@ specfunc locked(ip *Inode) = ip != nil && held[ip.Inum]
 
 //@ spec pow
@@ -94,6 +96,7 @@ package inode
 //@   ensures [S2-decode-blks] len(result.blks) == 10 && (forall k uint64 :: k < 10 ==> result.blks[k] == le64(buf.Data, 48 + 8*k)) @C10 @C11
 //@   ensures result.Dcache == nil
 //@   assumes [I1-disk] forall k uint64 :: k < 10 ==> result.blks[k] == 0 || validBlk(result.blks[k])
+//@   assumes [I7-disk] result.Size <= 1073774592 && result.ShrinkSize <= 262664
 
 // Transaction-side preconditions shared by the inode operations.
 //@ specfunc txnOK(atxn *alloctxn.AllocTxn) = atxnInv(atxn) && listsValid(atxn) && lastst == 0
@@ -141,9 +144,118 @@ package inode
 //@   requires [Q3-range] bn < 8 + 512 + 512*512 @C19 @C11
 //@   preserves [allocInv] allocInv() @C15 @C04
 //@   allocates buf.Buf, marshal.Enc, marshal.Dec, cell:uint64
-//@   modifies ip.blks[*], dirtyinum, abits, atxn.allocBnums, atxn.allocBnums[*], []uint8, buf.Buf.dirty
+//@   modifies ip.blks[*], dirtyinum, abits, atxn.allocBnums, []uint64@alloctxn.AllocTxn.allocBnums, []uint8, buf.Buf.dirty
 //@   ensures [I1-result] result0 == 0 || validBlk(result0) @C04 @C11
 //@   ensures [I1-inode] inodeInv(ip) @C04
 //@   ensures [lists-valid] listsValid(atxn) && listsStable(atxn)
 //@   ensures [S1-noalloc] !result1 ==> dirtyinum == old(dirtyinum) @C10
 //@   ensures forall j uint64 :: j != ip.Inum ==> dirtyinum[j] == old(dirtyinum)[j]
+
+// Fn1/Fn2 (C02), Q3 (C19), S1 (C10): file contents. MAXSZ = (8+512*512)*4096.
+//@ specfunc sizeOK(ip *Inode) = ip.Size <= 1073774592
+//@ specfunc othersClean(ip *Inode) = forall j uint64 :: j != ip.Inum ==> dirtyinum[j] == old(dirtyinum)[j]
+
+//@ spec (*Inode).Write
+//@   props C02 C10 C11 C19 C04 C09
+//@   requires locked(ip) && inodeInv(ip) && txnOK(atxn)
+//@   preserves [allocInv] allocInv() @C15 @C04
+//@   allocates buf.Buf, marshal.Enc, marshal.Dec, cell:uint64
+//@   modifies ip.Size, ip.blks[*], dirtyinum, abits, atxn.allocBnums, []uint64@alloctxn.AllocTxn.allocBnums, []uint8, buf.Buf.dirty
+//@   ensures [Q3-refuse] (offset + count < offset || offset + count > 1073774592 || len(dataBuf) < count) ==> result0 == 0 && !result1 && ip.Size == old(ip.Size) && dirtyinum == old(dirtyinum) && abits == old(abits) @C19 @C11 @C09
+//@   ensures [Fn2-count] result0 <= count @C02
+//@   ensures [Fn2-size] result0 > 0 ==> result1 && ip.Size == ite(old(ip.Size) > offset + result0, old(ip.Size), offset + result0) @C02
+//@   ensures [Fn2-nosize] result0 == 0 && result1 ==> ip.Size == old(ip.Size) && dirtyinum == old(dirtyinum) @C02 @C09
+//@   ensures [Fn2-fail] !result1 ==> result0 == 0 @C02 @C09
+//@   ensures [S1-synced] (!dirtyinum[ip.Inum] || old(dirtyinum)[ip.Inum]) && othersClean(ip) @C10
+//@   ensures [I1-inode] inodeInv(ip) @C04
+//@   ensures listsValid(atxn) && listsStable(atxn)
+//@   loop 0 invariant n <= count && cnt + n == count && off == offset + cnt && len(data) >= n && offset + count >= offset && offset + count <= 1073774592 && (n > 0 ==> boff == off / 4096)
+//@   loop 0 invariant inodeInv(ip) && listsValid(atxn) && listsStable(atxn) && allocInv() && ip.Size == old(ip.Size)
+//@   loop 0 invariant (!alloc ==> dirtyinum == old(dirtyinum)) && (alloc ==> cnt > 0) && othersClean(ip)
+//@   loop 0 decreases n
+//@   loop 1 invariant b <= nbytes && len(buffer.Data) == 4096
+//@   loop 1 decreases nbytes - b
+
+//@ spec (*Inode).Read
+//@   props C02 C10 C11 C04
+//@   requires locked(ip) && inodeInv(ip) && txnOK(atxn)
+//@   requires [count32] bytesToRead <= 4294967296 @C11
+//@   preserves [allocInv] allocInv() @C15 @C04
+//@   allocates buf.Buf, marshal.Enc, marshal.Dec, cell:uint64, []uint8
+//@   modifies ip.blks[*], dirtyinum, abits, atxn.allocBnums, []uint64@alloctxn.AllocTxn.allocBnums, []uint8, buf.Buf.dirty
+//@   ensures [Fn1-past-eof] offset >= ip.Size ==> len(result0) == 0 && result1 @C02
+//@   ensures [Fn1-len] len(result0) <= bytesToRead && (offset < ip.Size ==> len(result0) <= ip.Size - offset) @C02 @C11
+//@   ensures [Fn1-eof] result1 <==> offset + len(result0) >= ip.Size @C02
+//@   ensures ip.Size == old(ip.Size)
+//@   ensures [S1-synced] (!dirtyinum[ip.Inum] || old(dirtyinum)[ip.Inum]) && othersClean(ip) @C10
+//@   ensures [I1-inode] inodeInv(ip) @C04
+//@   ensures listsValid(atxn) && listsStable(atxn)
+//@   loop 0 invariant n <= count && off == offset + n && len(data) == n && count <= ip.Size - offset && offset < ip.Size && (n < count ==> boff == off / 4096)
+//@   loop 0 invariant inodeInv(ip) && listsValid(atxn) && listsStable(atxn) && allocInv() && ip.Size == old(ip.Size)
+//@   loop 0 invariant (!dirtyinum[ip.Inum] || old(dirtyinum)[ip.Inum]) && othersClean(ip)
+//@   loop 0 decreases count - n
+//@   loop 1 invariant b <= nbytes && len(data) == n + b && len(buf.Data) == 4096
+//@   loop 1 decreases nbytes - b
+
+// F1-F3 (C05), Z1/Z3/Z6 (C12), R7 (C01): freeing. Shrink lowers the frontier
+// ShrinkSize one block at a time, frees what it passes and persists the
+// inode in the same transaction, so every prefix of shrink transactions
+// leaves a consistent inode.
+//@ spec (*Inode).freeIndex
+//@   props C05 C04 C12 C11 C10
+//@   requires locked(ip) && inodeInv(ip) && txnOK(op)
+//@   requires [index] index < 10 @C11
+//@   allocates buf.Buf
+//@   modifies ip.blks[*], dirtyinum, buf.Buf.dirty, []uint8, op.freeBnums, []uint64@alloctxn.AllocTxn.freeBnums
+//@   ensures [F3-cleared] ip.blks[index] == 0 && (forall k uint64 :: k < 10 && k != index ==> ip.blks[k] == old(ip.blks[k])) @C05
+//@   ensures [I1-inode] inodeInv(ip) @C04
+//@   ensures listsValid(op) && listsStable(op) && othersClean(ip)
+
+//@ spec (*Inode).indshrink
+//@   props C05 C04 C12 C11 C06
+//@   requires ip != nil && txnOK(op)
+//@   requires [I1-root] root == 0 || validBlk(root) @C04
+//@   requires [Fn4-range] inRange(level, bn) @C11
+//@   decreases level
+//@   allocates buf.Buf, marshal.Enc, marshal.Dec, cell:uint64
+//@   modifies buf.Buf.dirty, []uint8, op.freeBnums, []uint64@alloctxn.AllocTxn.freeBnums
+//@   ensures [F3-rootornull] result == 0 || result == root @C05
+//@   ensures listsValid(op) && listsStable(op)
+
+//@ spec (*Inode).Shrink
+//@   props C05 C01 C04 C10 C11 C06 C12
+//@   requires locked(ip) && inodeInv(ip) && txnOK(op)
+//@   allocates buf.Buf, marshal.Enc, marshal.Dec, cell:uint64, []uint8
+//@   modifies ip.ShrinkSize, ip.blks[*], dirtyinum, buf.Buf.dirty, []uint8, op.freeBnums, []uint64@alloctxn.AllocTxn.freeBnums
+//@   ensures [F2-more] result <==> ip.IsShrinking() @C05
+//@   ensures [R7-persisted] !dirtyinum[ip.Inum] && othersClean(ip) @C01 @C10
+//@   ensures [F3-monotone] ip.ShrinkSize <= old(ip.ShrinkSize) && ip.Size == old(ip.Size) @C05
+//@   ensures [I1-inode] inodeInv(ip) @C04
+//@   ensures listsValid(op) && listsStable(op)
+//@   loop 0 invariant inodeInv(ip) && listsValid(op) && listsStable(op) && ip.ShrinkSize <= old(ip.ShrinkSize) && ip.Size == old(ip.Size) && othersClean(ip)
+//@   loop 0 decreases ip.ShrinkSize
+
+//@ spec (*Inode).zeroTail
+//@   props C12 C11 C04 C10
+//@   requires locked(ip) && inodeInv(ip) && txnOK(atxn)
+//@   requires [below] sz < ip.Size @C11
+//@   preserves [allocInv] allocInv() @C15 @C04
+//@   allocates buf.Buf, marshal.Enc, marshal.Dec, cell:uint64
+//@   modifies ip.blks[*], dirtyinum, abits, atxn.allocBnums, []uint64@alloctxn.AllocTxn.allocBnums, []uint8, buf.Buf.dirty
+//@   ensures [I1-inode] inodeInv(ip) && ip.Size == old(ip.Size) && ip.ShrinkSize == old(ip.ShrinkSize) @C04
+//@   ensures listsValid(atxn) && listsStable(atxn) && othersClean(ip)
+//@   loop 0 invariant b <= 4096 && len(buf.Data) == 4096
+//@   loop 0 decreases 4096 - b
+
+//@ spec (*Inode).Resize
+//@   props C05 C02 C04 C10 C11 C12 C19
+//@   requires locked(ip) && inodeInv(ip) && txnOK(atxn)
+//@   requires [Q3-max] sz <= 1073774592 @C19 @C11
+//@   preserves [allocInv] allocInv() @C15 @C04
+//@   allocates buf.Buf, marshal.Enc, marshal.Dec, cell:uint64, []uint8
+//@   modifies ip.Size, ip.ShrinkSize, ip.blks[*], dirtyinum, abits, atxn.allocBnums, []uint64@alloctxn.AllocTxn.allocBnums, atxn.freeBnums, []uint64@alloctxn.AllocTxn.freeBnums, []uint8, buf.Buf.dirty
+//@   ensures [Fn3-size] ip.Size == sz @C02
+//@   ensures [F2-more] result <==> ip.IsShrinking() @C05
+//@   ensures [S1-synced] !dirtyinum[ip.Inum] && othersClean(ip) @C10
+//@   ensures [I1-inode] inodeInv(ip) @C04
+//@   ensures listsValid(atxn) && listsStable(atxn)
